@@ -177,15 +177,17 @@ func init() {
 	externals[M+"UnsortedList"] = func(fr *frame, args []value) value { return cpusetList(fr.i, asCPUSet(args[0])) }
 	externals[M+"String"] = func(fr *frame, args []value) value {
 		b := asCPUSet(args[0]).bits
-		var m uint64
 		if b.isConst() {
-			m = b.bv
-		} else {
-			m = uint64(fr.i.concretize(symv{b, types.Uint64}))
+			return cpusetString(b.bv)
 		}
-		return cpusetString(m)
+		// injective printer of a symbolic set: an opaque string that only
+		// supports ==/!= and cpuset.Parse
+		return opaqstr{"cpuset", b}
 	}
 	externals[P+"Parse"] = func(fr *frame, args []value) value {
+		if o, ok := args[0].(opaqstr); ok && o.tag == "cpuset" {
+			return tuple{cpusetv{o.e}, iface{}}
+		}
 		s, ok := args[0].(string)
 		if !ok {
 			panic(unsupported{"cpuset.Parse of symbolic string"})
